@@ -447,6 +447,18 @@ class XYDataSet:
         xerr = kwargs.get("xerr", None)
         yerr = kwargs.get("yerr", None)
 
+        # A side given as a plain list or array is only wrapped (and its uncertainties only
+        # checked) further down, after an existing array on the other side has had its
+        # uncertainties overwritten: check those sides here, before anything is changed
+        for index, (key, error) in enumerate((("xdata", xerr), ("ydata", yerr))):
+            data = kwargs.get(key, args[index] if len(args) >= 2 else None)
+            if isinstance(data, ExperimentalValueArray):
+                continue  # validated below, together with the lengths
+            if not isinstance(data, ARRAY_TYPES):
+                raise IllegalArgumentError("Cannot create XYDataSet with the given arguments.")
+            if error is not None:
+                _get_error_array_helper(data, error, None)
+
         xdata = kwargs.pop("xdata", args[0] if len(args) >= 2 else None)
         ydata = kwargs.pop("ydata", args[1] if len(args) >= 2 else None)
 
